@@ -71,6 +71,8 @@ def abs_step(a, op):
         d = dv[0] if dv else 0
         v0 = vals[0] if vals else 0
         new = (t0 - v0, dt - d, n, unit) if sub else (t0 + v0, dt + d, n, unit)
+        if acc and d != 0 and new[1] == 0:
+            return a, False      # the operand would put all samples on one instant: to be refused
         return (new if acc else a), acc
     if k == 'mu':
         if op[1] == 0:
@@ -459,6 +461,8 @@ def judge(init, ops, steps=None):
         name = KIND_NAME[op[0]]
         if op[0] in ('ar', 'sr', 'nu') and len(op[2]) != ab[i - 1][0][2]:
             name += '-wrong-length'
+        elif op[0] in ('ar', 'sr') and acc is False:
+            name += '-collapse'
         elif op[0] == 'mu' and op[1] == 0:
             name += '-zero'
         elif op[0] == 'dv' and acc is False:
@@ -497,10 +501,6 @@ def judge(init, ops, steps=None):
                 break
         if sym:
             return ('%s/%s' % (name, sym_key(sym, name)), describe(init, ops, i, oc, axes, a, sym), i)
-        if op[0] in ('ar', 'sr') and accepted and a[1] == 0 and ab[i - 1][0][1] != 0:
-            # the ramp cancels the interval: all samples coincide and no sampling rate describes them
-            return (name + '-collapse/accepted-zero-interval',
-                    describe(init, ops, i, oc, axes, a, ['interval becomes 0; the rate attribute (%r Hz) cannot describe it' % parse_axis(axes[0])['rate']]), i)
         prev_axes = axes
     return None
 
